@@ -1,7 +1,6 @@
 package main
 
 import (
-	"runtime/debug"
 	"crypto/sha256"
 	"encoding/hex"
 	"encoding/json"
@@ -10,6 +9,7 @@ import (
 	"io/ioutil"
 	"os"
 	"path/filepath"
+	"runtime/debug"
 	"sort"
 	"strings"
 )
@@ -65,9 +65,14 @@ func sxZ(i int64) string {
 	}
 	return fmt.Sprintf("%x", i)
 }
-func sxU(i uint64) string   { return fmt.Sprintf("%x", i) }
-func sxB(b []byte) string   { return "#" + hex.EncodeToString(b) }
-func sxBool(b bool) string  { if b { return "1" }; return "0" }
+func sxU(i uint64) string { return fmt.Sprintf("%x", i) }
+func sxB(b []byte) string { return "#" + hex.EncodeToString(b) }
+func sxBool(b bool) string {
+	if b {
+		return "1"
+	}
+	return "0"
+}
 func sxL(items ...string) string { return "(" + strings.Join(items, " ") + ")" }
 func sxBs(bs [][]byte) string {
 	s := make([]string, len(bs))
@@ -180,6 +185,21 @@ func readJSON(path string, v interface{}) error {
 	b, err := ioutil.ReadFile(path)
 	if err != nil {
 		return err
+	}
+	return json.Unmarshal(b, v)
+}
+
+// readCase reads a case either bare or wrapped as the "case" member of a replay file.
+func readCase(path string, v interface{}) error {
+	b, err := ioutil.ReadFile(path)
+	if err != nil {
+		return err
+	}
+	var w struct {
+		Case json.RawMessage `json:"case"`
+	}
+	if json.Unmarshal(b, &w) == nil && len(w.Case) > 0 {
+		return json.Unmarshal(w.Case, v)
 	}
 	return json.Unmarshal(b, v)
 }
